@@ -276,6 +276,53 @@ func c18Sequences(c *core.Ctx, r *rand.Rand, n int) {
 	}
 }
 
+// c18UsedDestinations: the destination of a decode is just memory; that it already holds a time (in a named
+// zone whose offset happens to equal the one in the text) has no bearing on what the text means.
+func c18UsedDestinations(c *core.Ctx, r *rand.Rand, n int) {
+	var zones []*time.Location
+	for _, name := range []string{"America/New_York", "Europe/Berlin", "Australia/Lord_Howe", "Europe/Lisbon", "America/St_Johns", "Asia/Kolkata"} {
+		if z, err := time.LoadLocation(name); err == nil {
+			zones = append(zones, z)
+		}
+	}
+	if len(zones) == 0 {
+		c.Inconclusive("no time zone database: used-destination cases not run")
+		return
+	}
+	rb := avro.NewReadBuf(nil)
+	for k := 0; k < n; k++ {
+		z := zones[r.IntN(len(zones))]
+		t1 := time.Unix(int64(r.IntN(4e9))-1e9, int64(r.IntN(1e9))).In(z)
+		_, off1 := t1.Zone()
+		t2 := t1.Add(time.Duration(30+r.IntN(300)) * 24 * time.Hour).In(time.FixedZone("", off1))
+		s := t2.Format(time.RFC3339Nano)
+		c.Journal(c.CurCase(), "used-destination s="+s+" dest="+t1.String())
+		want, err := time.Parse(time.RFC3339, s)
+		if err != nil {
+			continue
+		}
+		dest := t1
+		data := append(refavro.AppendLong(make([]byte, 0, len(s)+3), int64(len(s))), s...)
+		rb.Reset(data)
+		var pan any
+		var lerr error
+		func() {
+			defer func() { pan = recover() }()
+			lerr = avrotime.StringCodec{}.Read(rb, unsafe.Pointer(&dest))
+		}()
+		c.Eval(1)
+		c.Count("used-destination.parses", 1)
+		if pan != nil || lerr != nil {
+			c.Violate("rejects-valid", fmt.Sprintf("%q decoded into a destination that held %s: err=%v panic=%v", s, t1, lerr, pan), map[string]any{"s": s})
+			return
+		}
+		if !sameTime(dest, want) {
+			c.Violate("instant", fmt.Sprintf("%q decoded into a destination that held %s: library %s, standard library %s", s, t1, dest.Format(time.RFC3339Nano), want.Format(time.RFC3339Nano)), map[string]any{"s": s})
+			return
+		}
+	}
+}
+
 func c18RoundTrip(c *core.Ctx, r *rand.Rand, n int) {
 	wb := avro.NewWriteBuf(nil)
 	for k := 0; k < n; k++ {
@@ -314,6 +361,14 @@ func c18NoPanic(c *core.Ctx, r *rand.Rand, n int) {
 	}
 	for k := 0; k < n; k++ {
 		s := genRFC3339(r)
+		if k%64 == 0 {
+			// a run of one filler byte after the text, of every awkward length
+			for _, m := range []int{1, 2, 8, 31, 32, 33, 47, 48, 49, 50, 64, 100, 256, 1000} {
+				for _, fill := range []byte{0x80, 0xbf, 0xff, 0x00, ' ', 'x', '0', 'Z', 0xc3, '+'} {
+					try(s + strings.Repeat(string([]byte{fill}), m))
+				}
+			}
+		}
 		switch r.IntN(6) {
 		case 0: // every prefix
 			for j := 0; j <= len(s); j++ {
@@ -432,6 +487,7 @@ func runC18(c *core.Ctx, i int) {
 	c18NoPanic(c, r, 1500*scale)
 	c18ViaReadFile(c, r, 200)
 	c18Sequences(c, r, 150*scale)
+	c18UsedDestinations(c, r, 1500*scale)
 	if i%16 == 0 {
 		c.Sample(map[string]any{"grammar_example": genRFC3339(r), "roundtrip_example": gen.Time(r, gen.ValOpts{Mode: gen.ModeFull}).Format(time.RFC3339Nano)})
 	}
@@ -442,7 +498,7 @@ func init() {
 		ID:        "C18",
 		Level:     "exploration",
 		Technique: "runtime monitoring: differential oracle (Go standard library time.Parse) over grammar-generated RFC 3339 strings, every calendar date, format/parse round trips and hostile mutations, driven through the exported time codec and ReadFile",
-		Rule: "grammar-generated RFC 3339 strings (two-digit fields, fraction lengths 1..30 with '.' or ',', Z or numeric offset, boundary/out-of-range field values) filtered by standard-library acceptance; every date 0000-01-01..9999-12-31; random time.Time values formatted with RFC3339Nano; prefix/substitution/insertion/deletion mutations for the no-panic clause; history sequences (A, A, [bank closed], B, B, A with B differing from A in one component by +-2^k, k = 0..13); " +
+		Rule: "grammar-generated RFC 3339 strings (two-digit fields, fraction lengths 1..30 with '.' or ',', Z or numeric offset, boundary/out-of-range field values) filtered by standard-library acceptance; every date 0000-01-01..9999-12-31; random time.Time values formatted with RFC3339Nano; prefix/substitution/insertion/deletion mutations for the no-panic clause; history sequences (A, A, [bank closed], B, B, A with B differing from A in one component by +-2^k, k = 0..13); texts decoded into destinations that already hold a time in a named daylight-saving zone whose offset equals the text's; " +
 			"distinct_nontrivial = distinct (fraction length, zone form, separator) classes among stdlib-accepted strings plus date chunks",
 		Explanation: "The domain is defined by time.Parse(RFC3339) acceptance, so the oracle cannot ask for more than the property; results are compared by instant (Equal) and zone offset. Each string is journalled before the call so a panic inside the library is attributed.",
 		Modes: func(tier string) []core.Mode {
